@@ -98,7 +98,7 @@ def run(ctx):
         n = n_steps(spec, lib)
         for cut in list(range(0, n + 1)) + [None]:
             cases.append({"spec": spec, "cut": cut})
-    impl = ctx.run_impl("impl_upgrade.py", {"cases": cases}, timeout=3000)
+    impl = ctx.run_impl_cases("impl_upgrade.py", cases, jobs=8, timeout=3000)
     terms, inputs, results, failures = [], [], [], []
     for c, r in zip(cases, impl):
         n = n_steps(c["spec"], lib)
